@@ -899,7 +899,10 @@ pub trait StoreFor<T: Storable>: Configurable + private::StoreCallbacks<T> {
         if let Some(idmap) = self.idmap() {
             if idmap.resolve_temp_ids && id.starts_with(T::temp_id_prefix()) {
                 if let Some(handle) = resolve_temp_id(id) {
-                    return Ok(T::HandleType::new(handle));
+                    //the number must be a handle of this store (a larger one would wrap around in the narrower handle type)
+                    if handle < self.store().len() {
+                        return Ok(T::HandleType::new(handle));
+                    }
                 }
             }
             if let Some(handle) = idmap.data.get(id) {
